@@ -258,6 +258,7 @@ struct NodeRec {
     goal: bool,
     why: &'static str,
     capped: bool,
+    flags: u32,
     succ: Vec<(u32, Event)>,
 }
 
@@ -267,8 +268,19 @@ struct Graph {
     capped: bool,
 }
 
+/// the two ghost flags that C30 keeps (everything else of the ghost state is dropped): they only
+/// name HOW a node came to hold an entry the leader does not have below a stored one
+const KEPT_FLAGS: u32 = F_APPEND_ON_DIVERGENT_PREFIX | F_DIVERGENT_BY_BATCH;
+
+fn strip_ghost(w: &mut World) {
+    let f = w.ghost.flags & KEPT_FLAGS;
+    w.ghost = Ghost::default();
+    w.ghost.flags = f;
+}
+
 fn gkey(w: &World, base_appends: u8, defers: u8, class: u8) -> u128 {
     let mut k = w.key(false);
+    k.extend_from_slice(&(w.ghost.flags & KEPT_FLAGS).to_le_bytes());
     k.push(base_appends);
     k.push(defers);
     k.push(class);
@@ -302,7 +314,7 @@ fn build(starts: &[Start], c: &Cfg) -> Graph {
             w.multiset = true;
             w.net.sort_by(|a, b| a.enc.cmp(&b.enc));
         }
-        w.ghost = Ghost::default();
+        strip_ghost(&mut w);
         let ba = w.appends;
         let h = gkey(&w, ba, 0, s.class);
         if index.contains_key(&h) {
@@ -311,7 +323,7 @@ fn build(starts: &[Start], c: &Cfg) -> Graph {
         let id = g.nodes.len() as u32;
         index.insert(h, id);
         let gl = goal(&w, ba);
-        g.nodes.push(NodeRec { parent: u32::MAX, ev: Event::Tick, root: ri as u32, depth: 0, goal: gl.is_ok(), why: gl.err().unwrap_or(""), capped: false, succ: vec![] });
+        g.nodes.push(NodeRec { parent: u32::MAX, ev: Event::Tick, root: ri as u32, depth: 0, goal: gl.is_ok(), why: gl.err().unwrap_or(""), capped: false, flags: w.ghost.flags, succ: vec![] });
         let cap = max_term(&w) + c.term_slack;
         queue.push_back((id, w, ba, cap, 0));
     }
@@ -329,7 +341,7 @@ fn build(starts: &[Start], c: &Cfg) -> Graph {
         for (ev, d2) in evs {
             let mut w2 = w.clone();
             w2.apply(ev).unwrap_or_else(|e| panic!("HARNESS: C30 event {} refused: {e}", ev.to_text()));
-            w2.ghost = Ghost::default();
+            strip_ghost(&mut w2);
             g.transitions += 1;
             let h = gkey(&w2, ba, d2, class);
             let tid = match index.get(&h) {
@@ -339,7 +351,7 @@ fn build(starts: &[Start], c: &Cfg) -> Graph {
                     index.insert(h, t);
                     let gl = goal(&w2, ba);
                     let (root, depth) = (g.nodes[id as usize].root, g.nodes[id as usize].depth + 1);
-                    g.nodes.push(NodeRec { parent: id, ev, root, depth, goal: gl.is_ok(), why: gl.err().unwrap_or(""), capped: false, succ: vec![] });
+                    g.nodes.push(NodeRec { parent: id, ev, root, depth, goal: gl.is_ok(), why: gl.err().unwrap_or(""), capped: false, flags: w2.ghost.flags, succ: vec![] });
                     queue.push_back((t, w2, ba, cap, d2));
                     t
                 }
@@ -525,7 +537,15 @@ fn analyse(g: &Graph, starts: &[Start]) -> (Cases, u64, u64, u64) {
         let timed = cycle.iter().any(|e| matches!(e, Event::Tick));
         let dead = cycle.iter().all(|e| matches!(e, Event::Tick));
         let (root, stem) = path_to(g, v);
-        let sig = format!("never-settles|{}|{}|from={}", whys.join("+"), if dead { "quiescent-nothing-ever-fires" } else if timed { "time-advances" } else { "zero-time-message-loop" }, from(root));
+        let fl = g.nodes[v as usize].flags;
+        let cause = if fl & F_DIVERGENT_BY_BATCH != 0 {
+            "|cause=reconcile-batch-on-divergent-log"
+        } else if fl & F_APPEND_ON_DIVERGENT_PREFIX != 0 {
+            "|cause=single-append-on-divergent-log"
+        } else {
+            ""
+        };
+        let sig = format!("never-settles|{}|{}|from={}{}", whys.join("+"), if dead { "quiescent-nothing-ever-fires" } else if timed { "time-advances" } else { "zero-time-message-loop" }, from(root), cause);
         cases.push(Case { signature: sig, what: format!("a fault-free schedule from the {} state {} without one leader followed by all and everything committed ({}); the loop has {} steps", from(root), if dead { "ends in a state in which no message is in flight and no timer will ever fire," } else { "runs forever through states" }, whys.join("+"), cycle.len()), root, stem, cycle, kind: "cycle" });
     }
     // longest way to the goal (steps) over the acyclic non-goal part
